@@ -245,6 +245,13 @@ EXTRA = _RTR + [
      r'(self\.customer_as\.encode\(\),\s*encode::sequence\(&self\.provider_as_set\.captured\))', lambda m: True, ['C05']),
     ('mftEncodeShape', 'src/repository/manifest.rs',
      r'(self\.manifest_number\.encode\(\),\s*self\.this_update\.encode_generalized_time\(\),\s*self\.next_update\.encode_generalized_time\(\),\s*self\.file_hash_alg\.encode_oid\(\),\s*encode::sequence\(\s*&self\.file_list\s*\))', lambda m: True, ['C05']),
+    # ---- C04
+    ('roaIterUsesTake', 'src/repository/roa.rs',
+     r'(impl Iterator for RoaIpAddressIter<\'_> \{[\s\S]*?RoaIpAddress::take_opt_from_unchecked\(cons\)[\s\S]*?fn skip_opt_in<[\s\S]*?let addr = match Self::take_opt_from_unchecked\(cons\)\? \{)', lambda m: True, ['C04']),
+    ('aspaIterUsesTake', 'src/repository/aspa.rs',
+     r'(while let Some\(asn\) = Asn::take_opt_from\(\s*cons\s*\)\? \{[\s\S]*?impl Iterator for ProviderAsIter<\'_> \{[\s\S]*?Asn::take_opt_from\(cons\))', lambda m: True, ['C04']),
+    ('crlIterUsesTake', 'src/repository/crl.rs',
+     r'(while CrlEntry::take_opt_from\(cons\)\?\.is_some\(\) \{ \}[\s\S]*?while let Some\(entry\) = CrlEntry::take_opt_from\(cons\)\.unwrap\(\))', lambda m: True, ['C04']),
     # ---- C14
     ('mftExtLen', 'src/repository/manifest.rs', r'fn validate_file_name\(name: &\[u8\]\)[\s\S]*?if n\.len\(\) != (\d+) \|\| !n\.iter\(\)\.all\(\|c\| c\.is_ascii_alphabetic\(\)\)', 'nat', ['C14']),
     ('mftNameCheckedBothSites', 'src/repository/manifest.rs',
